@@ -107,10 +107,10 @@ Print Assumptions C08_single_client_satisfiable.
    in the system in which no lookup runs at all — a lookup in flight while a client moves between nodes cannot damage
    the client's registration *)
 Theorem C08_lookups_do_not_disturb_any_schedule :
-  forall (s : tstate) (sched : list nat),
-  without_lookups (trun s sched) = trun (without_lookups s) sched
-  /\ fst (trun s sched) = fst (trun (without_lookups s) sched).
-Proof. intros s sched. exact (conj (without_lookups_run sched s) (lookups_do_not_disturb sched s)). Qed.
+  forall (cas : bool) (s : tstate) (sched : list nat),
+  without_lookups (trun cas s sched) = trun cas (without_lookups s) sched
+  /\ fst (trun cas s sched) = fst (trun cas (without_lookups s) sched).
+Proof. intros cas s sched. exact (conj (without_lookups_run cas sched s) (lookups_do_not_disturb cas sched s)). Qed.
 Print Assumptions C08_lookups_do_not_disturb_any_schedule.
 
 (* lookup soundness for all interleavings: if every record in the store and every record a pending RegisterConnection is
@@ -118,39 +118,40 @@ Print Assumptions C08_lookups_do_not_disturb_any_schedule.
    answer (n, c) is the node of a record registered for c — the two non-atomic reads never pair the node of one
    registration with the connection of another *)
 Theorem C08_lookup_answers_registered_all_schedules :
-  forall (P : N -> crec -> Prop) (sched : list nat) (s : tstate) (i : nat) (n c : N),
+  forall (cas : bool) (P : N -> crec -> Prop) (sched : list nat) (s : tstate) (i : nat) (n c : N),
   sys_ok P s ->
-  nth_error (snd (trun s sched)) i = Some (TFindDone (TFound n c)) ->
+  nth_error (snd (trun cas s sched)) i = Some (TFindDone (TFound n c)) ->
   exists x ctl, P c (x, n, ctl).
 Proof. exact lookup_answers_registered. Qed.
 Print Assumptions C08_lookup_answers_registered_all_schedules.
 
-(* NOT every interleaving is harmless for the writers: the repaired UnregisterConnection / RefreshConnection still read the
-   index and then write it in two storage calls.  Refuted with schedules (recorded as known findings, keys
-   race-unregister-read-delete-window / race-refresh-read-set-window), and shown to be EXACTLY that window. *)
+(* The tree BEFORE fixes/C08-atomic-client-index-cas.diff (cas = false: UnregisterConnection / RefreshConnection read the index and
+   then write it in two storage calls) is not safe under every interleaving: refuted with schedules, and shown to be
+   EXACTLY that window.  (While that tree is the one under test these are the known findings
+   race-unregister-read-delete-window / race-refresh-read-set-window.) *)
 Theorem C08_unregister_window_refuted :
-  exists sched, all_done (trun unregister_window sched) = true /\
-                tfind (fst (trun unregister_window sched)) 7 = TAbsent /\
-                tcs (fst (trun unregister_window sched)) 2 = Some (7%N, 2%N, true).
+  exists sched, all_done (trun false unregister_window sched) = true /\
+                tfind (fst (trun false unregister_window sched)) 7 = TAbsent /\
+                tcs (fst (trun false unregister_window sched)) 2 = Some (7%N, 2%N, true).
 Proof. exact unregister_window_refuted. Qed.
 Print Assumptions C08_unregister_window_refuted.
 
 Theorem C08_refresh_window_refuted :
-  exists sched, all_done (trun refresh_window sched) = true /\
-                tfind (fst (trun refresh_window sched)) 7 = TFound 1 1 /\
-                tcs (fst (trun refresh_window sched)) 2 = Some (7%N, 2%N, true).
+  exists sched, all_done (trun false refresh_window sched) = true /\
+                tfind (fst (trun false refresh_window sched)) 7 = TFound 1 1 /\
+                tcs (fst (trun false refresh_window sched)) 2 = Some (7%N, 2%N, true).
 Proof. exact refresh_window_refuted. Qed.
 Print Assumptions C08_refresh_window_refuted.
 
 Theorem C08_unregister_window_exact :
-  forallb (fun sched => tres_eqb (tfind (fst (trun unregister_window sched)) 7)
+  forallb (fun sched => tres_eqb (tfind (fst (trun false unregister_window sched)) 7)
                                  (if second_of_1_after 2 sched 0 0 then TAbsent else TFound 2 2))
           (interleave 4 2) = true /\ length (interleave 4 2) = 15%nat.
 Proof. exact unregister_window_exact. Qed.
 Print Assumptions C08_unregister_window_exact.
 
 Theorem C08_refresh_window_exact :
-  forallb (fun sched => tres_eqb (tfind (fst (trun refresh_window sched)) 7)
+  forallb (fun sched => tres_eqb (tfind (fst (trun false refresh_window sched)) 7)
                                  (if second_of_1_after 3 sched 0 0 then TFound 1 1 else TFound 2 2))
           (interleave 4 2) = true /\ length (interleave 4 2) = 15%nat.
 Proof. exact refresh_window_exact. Qed.
@@ -160,3 +161,40 @@ Theorem C08_interleaving_premises_satisfiable :
   sys_ok window_P unregister_window /\ sys_ok window_P refresh_window.
 Proof. exact window_sys_ok. Qed.
 Print Assumptions C08_interleaving_premises_satisfiable.
+
+(* The repaired code (cas = true: the index test-and-write is ONE CompareAndSwap).  Let invocation i0 be
+   RegisterConnection(B, new, X) for a fresh connection id `new`, and let every other invocation in the system be `safe`:
+   arbitrary lookups, registrations of other clients / connections, and UnregisterConnection / RefreshConnection of ANY
+   connection other than `new` — in particular the old node's late cleanup of X's previous connection and stale
+   heartbeats on it, at any point of their execution.  Then under EVERY schedule of storage calls: once the registration
+   has returned, client_conn:X names `new`, conn_state:new is X's record on B, and the lookup answers (B, new). *)
+Theorem C08_registration_survives_all_schedules :
+  forall (X B new : N), (0 <? X)%N = true ->
+  forall (i0 : nat) (sched : list nat) (s : tstate),
+  reg_inv X B new i0 s ->
+  nth_error (snd (trun true s sched)) i0 = Some TDone ->
+  established X B new (fst (trun true s sched)) /\ tfind (fst (trun true s sched)) X = TFound B new.
+Proof. exact registration_survives. Qed.
+Print Assumptions C08_registration_survives_all_schedules.
+
+(* ... and a lookup of X started after that never misses and never names another (abandoned) connection, whatever runs
+   concurrently with its two reads *)
+Theorem C08_lookup_after_registration_all_schedules :
+  forall (X B new : N), (0 <? X)%N = true ->
+  forall (i0 j : nat) (sched : list nat) (s : tstate) (r : tres),
+  lookup_inv X B new i0 j s ->
+  nth_error (snd (trun true s sched)) j = Some (TFindDone r) -> r = TFound B new.
+Proof. exact lookup_after_registration. Qed.
+Print Assumptions C08_lookup_after_registration_all_schedules.
+
+(* the two windows, closed: all interleavings of UnregisterConnection(old) / RefreshConnection(old) with RegisterConnection(new) *)
+Theorem C08_cas_windows_closed :
+  forallb (fun sched => tres_eqb (tfind (fst (trun true unregister_window sched)) 7) (TFound 2 2)) (interleave 3 2) = true /\
+  forallb (fun sched => tres_eqb (tfind (fst (trun true refresh_window sched)) 7) (TFound 2 2)) (interleave 3 2) = true.
+Proof. exact cas_windows_closed. Qed.
+Print Assumptions C08_cas_windows_closed.
+
+(* non-vacuity: old node's cleanup || stale heartbeat on the old connection || the new registration || a lookup *)
+Theorem C08_registration_premises_satisfiable : reg_inv 7 2 2 2 moving_system.
+Proof. exact moving_system_reg_inv. Qed.
+Print Assumptions C08_registration_premises_satisfiable.
